@@ -117,3 +117,82 @@ def collect_data_block(self, digitize=True, requantize=True, verbose=True):
                     pbar.update(1)
     return final_voltages
 '''
+
+REF_BACKEND_INIT = '''
+def __init__(self, antenna_source, digitizer, filterbank, requantizer, start_chan=0, num_chans=64, block_size=134217728,
+             blocks_per_file=128, num_subblocks=32):
+    self.antenna_source = antenna_source
+    if isinstance(antenna_source, v_antenna.Antenna):
+        self.num_antennas = 1
+        self.is_antenna_array = False
+    elif isinstance(antenna_source, v_antenna.MultiAntennaArray):
+        self.num_antennas = self.antenna_source.num_antennas
+        self.is_antenna_array = True
+    else:
+        raise ValueError("Invalid type provided for 'antenna_source'.")
+    self.sample_rate = self.antenna_source.sample_rate
+    self.num_pols = self.antenna_source.num_pols
+    self.fch1 = self.antenna_source.fch1
+    self.ascending = self.antenna_source.ascending
+    self.start_chan = start_chan
+    self.num_chans = num_chans
+    self.block_size = block_size
+    self.blocks_per_file = blocks_per_file
+    self.num_subblocks = num_subblocks
+    self.digitizer = digitizer
+    if isinstance(self.digitizer, quantization.RealQuantizer) or isinstance(self.digitizer, quantization.ComplexQuantizer):
+        self.digitizer = [[copy.deepcopy(self.digitizer) for pol in range(self.num_pols)] for antenna in range(self.num_antennas)]
+    elif isinstance(self.digitizer, list):
+        assert len(self.digitizer) == self.num_antennas
+        assert len(self.digitizer[0]) == self.num_pols
+        for antenna in range(self.num_antennas):
+            for pol in range(self.num_pols):
+                assert isinstance(self.digitizer[antenna][pol], (quantization.RealQuantizer, quantization.ComplexQuantizer))
+    else:
+        raise TypeError('Digitizer is incorrect type!')
+    self.filterbank = filterbank
+    if isinstance(self.filterbank, polyphase_filterbank.PolyphaseFilterbank):
+        self.filterbank = [[copy.deepcopy(self.filterbank) for pol in range(self.num_pols)] for antenna in range(self.num_antennas)]
+    elif isinstance(self.filterbank, list):
+        assert len(self.filterbank) == self.num_antennas
+        assert len(self.filterbank[0]) == self.num_pols
+        for antenna in range(self.num_antennas):
+            for pol in range(self.num_pols):
+                assert isinstance(self.filterbank[antenna][pol], polyphase_filterbank.PolyphaseFilterbank)
+    else:
+        raise TypeError('Filterbank is incorrect type!')
+    self.num_taps = self.filterbank[0][0].num_taps
+    self.num_branches = self.filterbank[0][0].num_branches
+    assert self.start_chan + self.num_chans <= self.num_branches // 2
+    self.tbin = self.num_branches / self.sample_rate
+    self.chan_bw = 1 / self.tbin
+    if not self.ascending:
+        self.chan_bw = -self.chan_bw
+    self.requantizer = requantizer
+    if isinstance(self.requantizer, quantization.ComplexQuantizer):
+        self.requantizer = [[copy.deepcopy(self.requantizer) for pol in range(self.num_pols)] for antenna in range(self.num_antennas)]
+    elif isinstance(self.requantizer, list):
+        assert len(self.requantizer) == self.num_antennas
+        assert len(self.requantizer[0]) == self.num_pols
+        for antenna in range(self.num_antennas):
+            for pol in range(self.num_pols):
+                assert isinstance(self.requantizer[antenna][pol], quantization.ComplexQuantizer)
+    else:
+        raise TypeError('Requantizer is incorrect type!')
+    self.num_bits = self.requantizer[0][0].num_bits
+    self.num_bytes = self.num_bits // 8
+    self.bytes_per_sample = 2 * self.num_pols * self.num_bits // 8
+    self.total_obs_num_samples = None
+    assert self.block_size % int(self.num_antennas * self.num_chans * self.num_taps * self.bytes_per_sample) == 0
+    self.samples_per_block = self.block_size // (self.num_antennas * self.num_chans * self.bytes_per_sample)
+    self.time_per_block = self.samples_per_block * self.tbin
+    self.sample_stage_t = 0
+    self.digitizer_stage_t = 0
+    self.filterbank_stage_t = 0
+    self.requantizer_stage_t = 0
+    self.input_file_stem = None
+    self.input_header_dict = None
+    self.header_size = None
+    self.input_num_blocks = None
+    self.input_file_handler = None
+'''
